@@ -6,6 +6,7 @@ package webrtc
 import (
 	"crypto"
 	"crypto/ecdsa"
+	"crypto/ed25519"
 	"crypto/rand"
 	"crypto/rsa"
 	"crypto/x509"
@@ -83,6 +84,16 @@ func (c Certificate) Equals(cert Certificate) bool {
 	case *ecdsa.PrivateKey:
 		if oSK, ok := cert.privateKey.(*ecdsa.PrivateKey); ok {
 			if cSK.X.Cmp(oSK.X) != 0 || cSK.Y.Cmp(oSK.Y) != 0 {
+				return false
+			}
+
+			return c.x509Cert.Equal(cert.x509Cert)
+		}
+
+		return false
+	case ed25519.PrivateKey:
+		if oSK, ok := cert.privateKey.(ed25519.PrivateKey); ok {
+			if !cSK.Equal(oSK) {
 				return false
 			}
 
